@@ -75,3 +75,32 @@ add("C11",
     "real-number model of floats; template family and sizes as listed; for the 36-choice template the scale a is fixed to 2 and "
     "1/2; probability rows sum to one in the affine law",
     "DESIGN.md section 7 C11")
+add("C02",
+    "Bounded SMT check of the real simulate function (JIT on) with symbolic value arrays passed through vf_arr_list, symbolic "
+    "params and agents with symbolic continuous states (on/off grid); data-dependent shapes are handled by forking over all "
+    "satisfiable filter masks. Per path, period and agent: reported choices are grid values, satisfy all filters and constraints, "
+    "the value equals Q(state, reported choice) and dominates Q(state, c) of every feasible grid choice (reference Q = "
+    "u + beta*E[V_next]); ties symbolic. Later periods are checked from an arbitrary (abstracted) state.",
+    "real-number model of floats; templates and sizes as listed in evidence (incl. filtered + unrestricted discrete choice + two "
+    "continuous choices of unequal size); 1-3 agents, T<=2 (thorough 3), path cap 64; agents with some feasible choice",
+    "DESIGN.md section 7 C02")
+add("C03",
+    "From symbolic runs of the real simulate function: period-0 states are the supplied initial states; every deterministic state "
+    "of period t+1 equals the user's transition function at the agent's own period-t row; stochastic states move to an in-range "
+    "label with positive probability in the row selected by the agent's period-t variables, for all probability arrays and all "
+    "uniform draws.",
+    "real-number model of floats; PRNG stub: a draw is an arbitrary u in [0,1) per key; templates/sizes as listed",
+    "DESIGN.md section 7 C03")
+add("C04",
+    "Decidable core: with a symbolic seed and PRNG keys as terms of a free algebra, the label map is the exact inverse CDF of the "
+    "selected row for all rows and all u (frequencies then follow from the trusted uniformity of the PRNG), zero-probability "
+    "labels are never drawn, the keys consumed over periods x variables x agents are pairwise different for every seed and used "
+    "once (independence under JAX's key contract), period 0 is seed-free, equal seeds give identical frames.",
+    "statistical quality of threefry is trusted, not checked; 2-3 agents, T=2 (thorough 3-4); templates TE, TK",
+    "DESIGN.md section 7 C04")
+add("C13",
+    "From symbolic runs of the real simulate function for 1-3 agents, 1-3 periods and subsets of additional targets: row count, "
+    "period-major MultiIndex (period, initial_state_id), column set, _period == t, period-0 rows carry the supplied initial states, "
+    "and every target cell equals the user's function evaluated on that row's cells and the params.",
+    "real-number model of floats; templates and target sets as listed in evidence",
+    "DESIGN.md section 7 C13")
